@@ -328,13 +328,22 @@ def shrink(lines, full, budget=60):
     from . import session as S
     t0 = time.time()
 
+    target = [None]
+
     def differs(ls):
         try:
             e = S.replay_impl(ls, full=full)
             g = S.run_model(ls, full=full, timeout=120)
         except Exception:  # noqa: B902
             return False
-        return S.compare(ls, e, g) is not None
+        j = S.compare(ls, e, g)
+        if j is None:
+            return False
+        # the candidate must differ at the SAME operation line as the original case (a
+        # shorter case that differs somewhere else, for another reason, is not a shrink)
+        if target[0] is None:
+            target[0] = ls[j]
+        return ls[j] == target[0]
 
     if not differs(lines):
         return lines, False
